@@ -98,6 +98,10 @@ def _format_strings(f_: T, fn, prog) -> Optional[List[str]]:
     f_ = Interp.unname(f_)
     if tm.is_const(f_) and isinstance(f_.args[1], str):
         return [f_.args[1]]
+    if f_.op == "fstr" and all(
+            tm.is_const(x) and isinstance(x.args[1], (str, int)) and
+            not isinstance(x.args[1], bool) for x in f_.args):
+        return ["".join(str(x.args[1]) for x in f_.args)]
     if f_.op in ("list", "tuple"):
         out = []
         for x in f_.args:
@@ -201,11 +205,17 @@ def check(ctx):
         "evo.tools.pandas_bridge.trajectory_to_df",
         "evo.tools.pandas_bridge.df_to_trajectory")
     # --------------------------------------------------------------- C06.1
+    from ..known_functions import KNOWN_FUNCTIONS
     n_sinks = 0
     for q, r in sorted(results.items()):
         if not q.startswith("evo.tools.file_interface"):
             continue
         for e in r.calls("numpy.savetxt"):
+            if q not in KNOWN_FUNCTIONS and e.depth == 0 and any(
+                    c.data.get("inlined") and c.data.get("target") is not None
+                    and c.data["target"].qualname == q
+                    for r_ in results.values() for c in r_.of_kind("call")):
+                continue     # a helper added later: judged in its callers
             n_sinks += 1
             kw = dict(e.data["kwargs"])
             f_ = kw.get("fmt")
@@ -413,6 +423,43 @@ def check(ctx):
     ctx.ob("C06.3", rl.func, len(at) == 2,
            "result: .tum and .kitti members are both loaded back",
            key="C06.3:load:trajectory-kinds", nontrivial=False)
+    # ... for *every* member when trajectories are asked for: with
+    # load_trajectories=True no further filter (a name selection that is
+    # empty for the plain flag ...) may skip a member
+    if "load_trajectories" in rl.func.params:
+        rt_ = Interp(prog).run(rl.func, {"load_trajectories": const(True)})
+
+        def empty(x: T) -> bool:
+            x = Interp.unname(x)
+            return (x.op in ("set", "tuple", "list", "dict") and not x.args) \
+                or (is_call_to(x, "builtins.set", "builtins.frozenset",
+                               "builtins.tuple", "builtins.list") and
+                    not x.args[1] and not x.args[2])
+
+        def assign(a: T):
+            if a.op in ("and", "or", "not"):
+                return None
+            if a.op == "iter":
+                return True
+            if a.op == "cmp" and a.args[0] in ("In", "NotIn") and \
+                    empty(a.args[2]):
+                return a.args[0] == "NotIn"
+            if empty(a):
+                return False
+            if any(x.op == "attr" and x.args[1] in ("suffix", "name")
+                   or is_call_to(x, ".endswith") for x in a.walk()):
+                return True        # the member is one of this format
+            return None
+        for e in rt_.calls("evo.core.result.Result.add_trajectory"):
+            v = tm.fold(e.live, assign)
+            ctx.ob("C06.3", e, v is not False,
+                   "result: with load_trajectories=True every member of the "
+                   "format is loaded" if v is not False else
+                   f"load_res_file(load_trajectories=True): the member loop "
+                   f"at {e.where} skips every member (condition "
+                   f"{fmt(e.live)[:120]}) — embedded trajectories of this "
+                   f"format silently disappear on load",
+                   key="C06.3:load:every-member")
 
     # every embedded trajectory / array gets its own fresh buffer: a buffer
     # created outside the loop keeps the tail of a longer earlier member
